@@ -702,6 +702,29 @@ impl<'tcx> Cx<'tcx> {
                     if let Some(e) = self.expn(tcx.def_span(d)) {
                         let _ = write!(out, ",\"exp\":{}", js(&e));
                     }
+                    {
+                        // generic parameter names in substitution order (parents first)
+                        let mut names: Vec<String> = Vec::new();
+                        let mut chain = Vec::new();
+                        let mut g = Some(tcx.generics_of(d));
+                        while let Some(gg) = g {
+                            chain.push(gg);
+                            g = gg.parent.map(|p| tcx.generics_of(p));
+                        }
+                        for gg in chain.iter().rev() {
+                            for prm in gg.own_params.iter() {
+                                names.push(prm.name.to_string());
+                            }
+                        }
+                        out.push_str(",\"generics\":[");
+                        for (i, n) in names.iter().enumerate() {
+                            if i > 0 {
+                                out.push(',');
+                            }
+                            out.push_str(&js(n));
+                        }
+                        out.push(']');
+                    }
                     let sig = tcx.fn_sig(d).instantiate_identity().skip_norm_wip().skip_binder();
                     out.push_str(",\"inputs\":[");
                     let mut first = true;
